@@ -12,14 +12,20 @@ struct VerifDisk : public SymDisk { void AllowStatCache(bool) {} };
 #undef main
 #undef RealDiskInterface
 
+#ifdef REAL_RUNNER
+#include "osmodel.h"       // the real RealCommandRunner / SubprocessSet / PosixJobserverClient over a modelled operating system
+#else
 extern CommandRunner* (*verif_runner_factory)(const BuildConfig&, Jobserver::Client*);
+#endif
 static RunnerOpts g_runner_opts;
+#ifndef REAL_RUNNER
 static CommandRunner* make_sym_runner(const BuildConfig& c, Jobserver::Client*) {
   // the manifest may have been regenerated and re-read since the invocation began: the runner models commands of the manifest now in effect
   { State st; SymDisk d; std::string err; ManifestParser p(&st, &d); if (p.Load("build.ninja", &err)) build_reference(&st); }
   SymRunner* r = new SymRunner; r->opt = g_runner_opts; r->opt.parallelism = c.parallelism; r->opt.failures_allowed = c.failures_allowed; r->opt.tokens = NULL; r->opt.builder = NULL; r->opt.check_idle = false;
   return r;
 }
+#endif
 struct MainArgs { int argc; char** argv; };
 static void main_trampoline(void* p) { MainArgs* a = (MainArgs*)p; real_main(a->argc, a->argv); }
 struct MainRun { int rc; std::string out, err; RunnerSink sink; };
@@ -30,11 +36,14 @@ static MainRun run_ninja(const std::vector<std::string>& args) {
   State::kDefaultPool.current_use_ = 0; State::kDefaultPool.delayed_.clear();
   State::kConsolePool.current_use_ = 0; State::kConsolePool.delayed_.clear();
   optind = 0;
-  RunnerSink sink; g_sink = &sink; verif_runner_factory = make_sym_runner;
+  RunnerSink sink; g_sink = &sink;
+#ifndef REAL_RUNNER
+  verif_runner_factory = make_sym_runner;
+#endif
   std::vector<std::string> a; a.push_back("ninja");
   // always an explicit -j: without it ninja asks the operating system (cgroup files, sched_getaffinity), which is outside the encoding
-  { bool has_j = false; for (size_t i = 0; i < args.size(); i++) has_j = has_j || args[i] == "-j"; if (!has_j) { a.push_back("-j"); a.push_back("2"); } }
-  a.insert(a.end(), args.begin(), args.end());
+  { bool has_j = false; for (size_t i = 0; i < args.size(); i++) has_j = has_j || args[i] == "-j" || args[i] == "--verif-no-j"; if (!has_j) { a.push_back("-j"); a.push_back("2"); } }
+  for (size_t i = 0; i < args.size(); i++) if (args[i] != "--verif-no-j") a.push_back(args[i]);
   std::vector<char*> argv; for (size_t i = 0; i < a.size(); i++) argv.push_back(&a[i][0]); argv.push_back(NULL);
   MainArgs ma; ma.argc = (int)a.size(); ma.argv = &argv[0];
   verif_stdout_capture();
@@ -54,11 +63,21 @@ static InvocationResult invoke_main(const InvocationOpts& o) {
   { State st; SymDisk d; std::string err; ManifestParser p(&st, &d); if (p.Load("build.ninja", &err)) build_reference(&st); }   // as invoke(): the declared-input view of the manifest this invocation starts from
   g_runner_opts = o.run;
   std::vector<std::string> args;
+#ifdef REAL_RUNNER
+  os_begin(o.run, o.token_pool);
+  if (o.token_pool >= 0) { setenv("MAKEFLAGS", (std::string(" -j --jobserver-auth=fifo:") + kFifoPath).c_str(), 1); args.push_back("--verif-no-j"); }     // a jobserver client: no -j on the command line
+  else { unsetenv("MAKEFLAGS"); args.push_back("-j"); args.push_back(num(o.run.parallelism)); }
+#else
   args.push_back("-j"); args.push_back(num(o.run.parallelism));
+#endif
   args.push_back("-k"); args.push_back(num(o.failures_allowed >= 1000000 ? 0 : o.failures_allowed));
   if (o.dry_run) args.push_back("-n");
   args.insert(args.end(), o.targets.begin(), o.targets.end());
   MainRun m = run_ninja(args);
+#ifdef REAL_RUNNER
+  res.tokens_outstanding = g_os->fifo_taken - g_os->fifo_returned;
+  os_end();
+#endif
   res.rc = m.rc; res.started = m.sink.started; res.finished_ok = m.sink.finished_ok; res.failed = m.sink.failed; res.exit_codes = m.sink.exit_codes; res.events = m.sink.events;
   res.max_running = m.sink.max_running; res.interrupted = m.sink.interrupted;
   bool stopped = m.out.find("ninja: build stopped: ") != std::string::npos;
